@@ -141,6 +141,9 @@ pub fn run(tier: &str) -> Result<Report, String> {
             let ctx = Arc::new(NetCtx::new(b.clone(), labels, &desc));
             let mut alpha = collision_alphabet(&ctx.user);
             alpha.truncate(a_size);
+            // a jump to the restricted variable evaluated BEFORE a closed duplicate in the same restricted scope
+            alpha.push(crate::formulas::f("!{x} in %d%: ((@{x}: AX a) & EF (~ a))", &ctx.user));
+            alpha.push(crate::formulas::f("3{x} in %d%: ((@{x}: EX a) | (!{y}: AX ({y} & a)))", &ctx.user));
             if rep.samples.len() < 3 {
                 rep.sample(json!({"network": b.name, "labels": desc, "history": [alpha[2].show(&ctx.user), alpha[3].show(&ctx.user)], "meaning": "batch {f2,f3}: eval_node(f2) then eval_node(f3) on the shared context; every result compared with alone / unshared / oracle"}));
             }
